@@ -13,7 +13,7 @@ var initAllow = map[string]bool{
 	"github.com/gobwas/ws": true, "github.com/gobwas/ws/wsutil": true, "github.com/gobwas/ws/wsflate": true,
 	"github.com/gobwas/httphead": true, "io": true, "errors": true, "bufio": true, "bytes": true,
 	"strings": true, "strconv": true, "unicode/utf8": true, "encoding/binary": true, "encoding/base64": true,
-	"math/bits": true, "io/ioutil": true, "net/http": false, "compress/flate": false,
+	"math/bits": true, "io/ioutil": true, "context": true, "net/http": false, "compress/flate": false,
 }
 
 // globals of non-initialised packages that may be read as their zero value / modelled value
@@ -24,6 +24,9 @@ func (w *Worker) globalObj(g *ssa.Global) int {
 	w.initDepth++
 	o := w.allocType(g.Type().Underlying().(*types.Pointer).Elem())
 	o.Tag = g.String()
+	if pos := g.Pos(); pos.IsValid() && strings.Contains(w.prog.Fset.Position(pos).Filename, "zz_verif_") {
+		o.Tag = "" // harness-owned global: not library state
+	}
 	w.initDepth--
 	w.globals[g] = o.ID
 	if g.Pkg != nil {
